@@ -4,6 +4,8 @@ Property theorems only; helper lemmas are in Genq/Proofs/HttpEscape.lean and Htt
 -/
 import Genq.Model.Http
 import Genq.Proofs.HttpUrl
+import Genq.Model.ClientSkel
+import Genq.Extracted.Client
 namespace Genq.Http
 
 /-- **C11_unescape_escape** — percent-encoding is lossless: for every byte string
@@ -191,3 +193,13 @@ example : parseQuery (getRawQuery [97, 61, 49, 38, 113, 117, 101, 114, 121, 61, 
     = [([97], [49]), (kOpName, [38, 61]), (kQuery, [123, 97, 125]), (kVariables, [123, 125])] := by decide
 
 end Genq.Http
+
+namespace Genq
+
+/-- **C11_client_skeleton_tie** — graphql/client.go's newClient / MakeRequest / createPostRequest / createGetRequest
+    as they stand in /repo (regenerated on every run) have the control and effect structure the model was written
+    from: the gate on the leading keyword before any request is built, json.Marshal for POST, merge into the
+    endpoint's parsed query and re-encode for GET -/
+theorem C11_client_skeleton_tie : Extracted.httpClientSkeleton = ClientSkel.httpClientSkeleton := rfl
+
+end Genq
